@@ -66,7 +66,7 @@ PROPERTY SaturatedStays
   MaxReloads = {p.get('maxreloads', 1)}
 INIT Init
 NEXT Next
-VIEW View
+VIEW {"ViewH" if p.get("histview") else "View"}
 CONSTRAINT Bound
 {inv if mode in ("mc", "both") else ""}
 {"ACTION_CONSTRAINT Emit" if mode in ("emit", "both") else ""}
@@ -174,7 +174,7 @@ class Ctx:
         if not self.patch_ok:
             t.extra["skipped_limit_patch_ineffective"] = t.extra.get("skipped_limit_patch_ineffective", 0) + 1
             return
-        hf = make_hash(table)
+        hf = make_hash(table, size=self.W)
         if self.strategy:
             hf = None if self.strategy == "fnv" else strategy_fn(self.strategy)
         objs = {"A": self.new(hf), "B": self.new(hf)}
@@ -270,6 +270,18 @@ class Ctx:
             t.check(ob["cells"] == ex["cells"] and ob["total"] == ex["total"], "C16", "C16.no_half_update", ENGINE, rp2, sig)
             if ex["sat"]:
                 t.nontriv(hash(repr((table, hist, o)))) if t.focus == "C16" else None
+        # C19: clear() = fresh, judged by what happens AFTERWARDS (hidden state such as an eviction floor must be reset too): a newly
+        # constructed object fed only the calls made since the last clear() must be in the same observable state
+        if t.focus == "C19" and o[1] == w and o[0] != "join":
+            full = list(hist) + [o]
+            cut = max((i for i, op in enumerate(full) if op[0] == "clear" and op[1] == w), default=None)
+            suffix = [op for op in full[cut + 1:] if op[1] == w or op[0] == "join"] if cut is not None else None
+            if suffix is not None and not any(op[0] == "join" for op in full[cut + 1:]):
+                g = {w: self.new(hf)}
+                for op in suffix:
+                    self.apply(g, op)
+                og = self.observe(g[w])
+                t.check(og == ob and bytes(g[w]) == bytes(s), "C19", "C19.clear_then_behaves_fresh.cms", ENGINE, lambda: rp2(fresh_object=og, since_clear=suffix), sig)
         # C17: the public tables against the values the real object itself returned
         if self.kind == "hh":
             lr = last_ret[w]
@@ -380,7 +392,7 @@ class Ctx:
                     "C19", "C19.clear_fresh.cms", ENGINE, lambda: rp(who=who), {"kind": self.kind})
 
 
-def profiles(tier, seed, light=False):
+def profiles(tier, seed, light=False, focus=None):
     P = []
     far = dict(cellmax=100000, cellmin=-100000, totmax=100000, totmin=-100000)
     base = dict(far, keys=["a", "b", "c"], amts=[1, 2], whos=["A", "B"], kind="cms", mode="min", maxtrue=3, maxdepth=4)
@@ -419,6 +431,12 @@ def profiles(tier, seed, light=False):
         for (W, D, H) in [(2, 2, 5), (1, 1, 2), (3, 2, 7)]:
             P.append(dict({**base, **tiny}, W=W, D=D, H=H, ntables=4, maxdepth=4, whos=["A"]))
         P.append(dict({**base, **tiny}, W=2, D=1, H=3, ntables=8, maxdepth=3, amts=[2, 4]))
+    # every HISTORY (no state merging) of the smallest tables: what the code does after clear() / reload for every preceding history
+    hv = dict(base, W=1, D=1, H=2, ntables=1, whos=["A"], histview=True, maxreloads=1)
+    P.append(dict(hv, kind="hh", nh=1, keys=["a", "b"], amts=[1, 2], maxdepth=5, maxtrue=5))
+    P.append(dict(hv, kind="st", thr=3, keys=["a", "b"], amts=[1, 3], maxdepth=4 if tier == "quick" else 5, maxtrue=6))
+    if tier != "quick":
+        P.append(dict(hv, kind="hh", nh=2, keys=["a", "b", "c"], amts=[1, 2], maxdepth=5, maxtrue=5, W=2, H=3))
     solo2 = dict(base, whos=["A"], maxdepth=4 if tier == "quick" else 5, maxtrue=3, H=0, ntables=1)
     for i, st in enumerate(["fnv", "md5", "sha256", "deco_int", "handwritten"] if tier == "quick" else ["fnv", "md5", "sha256", "deco_int", "deco_bytes", "handwritten"]):
         W, D = [(2, 2), (3, 2), (5, 3)][i % 3]
@@ -428,7 +446,9 @@ def profiles(tier, seed, light=False):
     P.append(dict(solo2, W=2, D=2, strategy="fnv", kind="hh", nh=2, keys=["a", "b", "c", "d"], maxtrue=4))
     P.append(dict(solo2, W=2, D=2, strategy="md5", kind="st", thr=2))
     if light and tier == "quick":
-        P = [dict(p, ntables=min(p["ntables"], 2), maxdepth=min(p["maxdepth"], 4)) for p in P if not p.get("patch_limits")]
+        # C19: the tables of HeavyHitters / StreamThreshold keep hidden state across clear(): their histories keep the full depth
+        P = [dict(p, ntables=min(p["ntables"], 2), maxdepth=p["maxdepth"] if (focus == "C19" and p.get("histview")) else min(p["maxdepth"], 4))
+             for p in P if not p.get("patch_limits")]
     for i, p in enumerate(P):
         if p.get("strategy"):
             p["tables"] = [strategy_table(p["strategy"], p["keys"], p["D"], p["W"])]
@@ -451,8 +471,8 @@ INVPROP = {"TypeOK": "C16", "Bounds": "C02", "TotalMeaning": "C14", "HHConsisten
 def run(focus, tier, seed):
     total = Tally(focus)
     jobs = []
-    for p in profiles(tier, seed, focus in ("C05", "C14", "C19")):
-        if focus in FOCUS_FILTER and not FOCUS_FILTER[focus](p):
+    for p in profiles(tier, seed, focus in ("C05", "C14", "C19"), focus):
+        if (focus in FOCUS_FILTER and not FOCUS_FILTER[focus](p)) or (p.get("histview") and focus not in ("C19", "C17", "C14")):
             continue
         tabs = p["tables"]
         const = {k: v for k, v in p.items() if k != "tables"}
@@ -463,10 +483,10 @@ def run(focus, tier, seed):
             pp = {k: v for k, v in p.items() if k != "tables"}
             jobs.append(dict(module=mod, cfg=cfg(p, "both"), workers=1, timeout=3000, params=pp, tag=("mc", const)))
     nsim = 0
-    for p in profiles(tier, seed, focus in ("C05", "C14", "C19")):
+    for p in profiles(tier, seed, focus in ("C05", "C14", "C19"), focus):
         if focus in FOCUS_FILTER and not FOCUS_FILTER[focus](p):
             continue
-        if p.get("exhaustive") or (tier == "quick" and focus in ("C05", "C14", "C19")):
+        if p.get("exhaustive") or p.get("histview") or (tier == "quick" and focus in ("C05", "C14", "C19")):
             continue
         ps = dict(p, maxdepth=14, maxtrue=p["maxtrue"] + 4, maxreloads=2)
         const = {k: v for k, v in ps.items() if k != "tables"}
